@@ -5,7 +5,7 @@
  "enforce": ["libcperciva_HMAC_SHA256_Update"],
  "replace": ["HMAC_SHA256_Update_internal"],
  "annotate": ["alg/sha256.c", "util/insecure_memzero.c"],
- "defines": ["VERIF_HALLOC", "VERIF_HASH_ABS", "SHA_MAXOBJ=130"],
+ "defines": ["VERIF_HALLOC", "VERIF_HASH_ABS", "SHA_MAXOBJ=0xffffffff"],
  "loop_contracts": false,
  "timeout": 300,
  "assumptions": ["hash layer abstracted at the call level (VERIF_HASH_ABS); L-md",
